@@ -40,11 +40,12 @@ def main(argv):
         mod = importlib.import_module('sa.rules.%s' % pid.lower())
         run = Run(pid, tier)
         mod.check(run)
-        code = run.finish()
-        if tier == 'thorough' and hasattr(mod, 'selftest'):
+        if tier == 'thorough':
+            if hasattr(mod, 'thorough'):
+                mod.thorough(run)
             from . import selftest
             selftest.run_selftest(pid, mod, run)
-        return code
+        return run.finish()
     except AnalysisError as e:
         print('ANALYSIS-ERROR property=%s %s' % (pid, e))
         write_error_evidence(pid, tier, str(e))
